@@ -92,7 +92,12 @@ def oracle(chk, world, r, case):
             allowed = set([who]) | set(world.regpoints(who)) if who is not None else set()
             if t not in allowed:
                 chk.failure("exception %s raised by %s is recorded against %s (allowed: %s)" % (name, who, t if t is not None else dr.get_name(target), sorted(allowed)), case)
-            tb = b.tracebacks.get(ex)
+            try:
+                tb = b.tracebacks.get(ex)
+            except TypeError:
+                chk.failure("exception %s against %s is an unhashable instance (%s): the engine keys its tracebacks by the exception, "
+                            "so it cannot be recorded with one" % (name, t, type(ex).__name__), case)
+                continue
             if not tb:
                 chk.failure("exception %s against %s has no traceback" % (name, t), case)
             elif not (isinstance(tb, str) and "Traceback (most recent call last)" in tb and type(ex).__name__ in tb):
